@@ -4,9 +4,12 @@
  * DataArray / Array members replaced by the models of stubs/containers.h and stubs/svec_ext.h.
  * `const` qualifiers of the members are dropped (the wrapper has to fill them in; body() is const, so
  * the body still cannot write them). */
+extern "C" { extern int g_out; extern int g_out2; extern int g_n2; extern int* gp_i1; extern int* gp_i2; extern int* gp_i3; extern double* gp_d1; }
+#ifdef INST_FreeZeroObjVariable
+/* the body builds a local DSVectorBase `slack`; export aliases to its size and inline buffers */
+#define DSVEC_CTOR_HOOK(self) gp_i2 = &(self)->used; gp_i3 = (self)->buf_i; gp_d1 = (self)->buf_v;
+#endif
 #include "ps_common.h"
-
-extern "C" { extern int g_out; extern int g_out2; extern int* gp_i1; extern int* gp_i2; extern double* gp_d1; }
 
 /* ------------------------------------------------------------------------------------------- */
 #ifdef INST_RowObj
@@ -140,6 +143,72 @@ extern "C" void w_FixVariable(PS_PARAMS, int m_j, int m_old_j, double m_val, dou
    H h; PS_BIND(h) h.m_j = m_j; h.m_old_j = m_old_j; h.m_val = m_val; h.m_obj = m_obj; h.m_lower = m_lower; h.m_upper = m_upper;
    h.m_correctIdx = m_correctIdx != 0;
    PS_SVEC(h.m_col, col_idx, col_val, col_n, nR)
+   gp_i1 = col_idx;
+   h.body();
+}
+#endif
+
+/* array of CAP sparse vectors laid out in two flat arrays (vector k = cells [k*CAP, k*CAP + n[k])), built
+ * without a loop (harness/wrapper loops would need contracts); CAP <= 8 */
+#define PS_SV1(a, k, fi, fv, fn, bnd) if(k < CAP) { PS_SVEC(a[k], fi + k * CAP, fv + k * CAP, fn[k], bnd) }
+#define PS_SVARR(a, fi, fv, fn, bnd) \
+   PS_SV1(a, 0, fi, fv, fn, bnd) PS_SV1(a, 1, fi, fv, fn, bnd) PS_SV1(a, 2, fi, fv, fn, bnd) PS_SV1(a, 3, fi, fv, fn, bnd) \
+   PS_SV1(a, 4, fi, fv, fn, bnd) PS_SV1(a, 5, fi, fv, fn, bnd) PS_SV1(a, 6, fi, fv, fn, bnd) PS_SV1(a, 7, fi, fv, fn, bnd)
+
+/* ------------------------------------------------------------------------------------------- */
+#ifdef INST_ForceConstraint
+struct H : PostStepHost
+{
+   int m_i; int m_old_i; R m_lRhs; DSVectorBase<R> m_row; Array<R> m_objs; DataArray<bool> m_fixed; Array<DSVectorBase<R> > m_cols;
+   bool m_lhsFixed; bool m_maxSense; Array<R> m_oldLowers; Array<R> m_oldUppers; R m_lhs; R m_rhs; R m_rowobj;
+   void body() const
+   {
+      PS_PROLOGUE
+#include "ForceConstraintPS.inc"
+      g_out = cBasisCandidate;      /* ghost export of a body local for the postcondition (verification only) */
+   }
+};
+extern "C" void w_ForceConstraint(PS_PARAMS, int m_i, int m_old_i, double m_lRhs, int* row_idx, double* row_val, int row_n, double* objs,
+                                  bool* fixed, int* cols_idx, double* cols_val, int* cols_n, int m_lhsFixed, int m_maxSense,
+                                  double* oldLo, double* oldUp, double m_lhs, double m_rhs, double m_rowobj)
+{
+   H h; PS_BIND(h) h.m_i = m_i; h.m_old_i = m_old_i; h.m_lRhs = m_lRhs; h.m_lhsFixed = m_lhsFixed != 0; h.m_maxSense = m_maxSense != 0;
+   h.m_lhs = m_lhs; h.m_rhs = m_rhs; h.m_rowobj = m_rowobj;
+   PS_SVEC(h.m_row, row_idx, row_val, row_n, nC)
+   h.m_objs.data = objs; h.m_objs.thesize = row_n; h.m_fixed.data = fixed; h.m_fixed.thesize = row_n;
+   h.m_oldLowers.data = oldLo; h.m_oldLowers.thesize = row_n; h.m_oldUppers.data = oldUp; h.m_oldUppers.thesize = row_n;
+   DSVectorBase<R> cols[CAP];
+   PS_SVARR(cols, cols_idx, cols_val, cols_n, nR)
+   h.m_cols.data = cols; h.m_cols.thesize = row_n;
+   gp_i1 = row_idx;
+   h.body();
+}
+#endif
+
+/* ------------------------------------------------------------------------------------------- */
+#ifdef INST_FreeZeroObjVariable
+struct H : PostStepHost
+{
+   int m_j; int m_old_j; int m_old_i; R m_bnd; DSVectorBase<R> m_col; DSVectorBase<R> m_lRhs; DSVectorBase<R> m_rowObj;
+   Array<DSVectorBase<R> > m_rows; bool m_loFree;
+   void body() const
+   {
+      PS_PROLOGUE
+#include "FreeZeroObjVariablePS.inc"
+      g_out = domIdx;               /* ghost export of a body local for the postcondition (verification only) */
+   }
+};
+extern "C" void w_FreeZeroObjVariable(PS_PARAMS, int m_j, int m_old_j, int m_old_i, double m_bnd, int* col_idx, double* col_val, int col_n,
+                                      int* lrhs_idx, double* lrhs_val, int* robj_idx, double* robj_val,
+                                      int* rows_idx, double* rows_val, int* rows_n, int m_loFree)
+{
+   H h; PS_BIND(h) h.m_j = m_j; h.m_old_j = m_old_j; h.m_old_i = m_old_i; h.m_bnd = m_bnd; h.m_loFree = m_loFree != 0;
+   PS_SVEC(h.m_col, col_idx, col_val, col_n, nR)
+   PS_SVEC(h.m_lRhs, lrhs_idx, lrhs_val, col_n, CAP)
+   PS_SVEC(h.m_rowObj, robj_idx, robj_val, col_n, CAP)
+   DSVectorBase<R> rows[CAP];
+   PS_SVARR(rows, rows_idx, rows_val, rows_n, nC)
+   h.m_rows.data = rows; h.m_rows.thesize = col_n;
    gp_i1 = col_idx;
    h.body();
 }
